@@ -42,15 +42,17 @@ def rand_pair(rng, case):
     nums, diffs = gen.value_steps(case['vals'])
     mode = rng.choice(['npix', 'npix', 'delta', 'both', 'equal'])
     d0 = n0 = d1 = n1 = 0
+    den = 1
     if mode in ('delta', 'both', 'equal') and diffs:
         d1 = max(0, rng.choice(diffs) + rng.choice([-1, 0, 0, 1]))
         d0 = rng.choice([0, 0, rng.randint(0, d1)])
     if mode in ('npix', 'both', 'equal'):
-        n1 = rng.randint(1, 6)
+        den = rng.choice([1, 1, 1, 2, 4])            # fractional pixel counts (e.g. 1.5 beams of 1.7 pixels)
+        n1 = rng.randint(1, 6 * den)
         n0 = rng.choice([0, 0, rng.randint(0, n1)])
     if mode == 'equal':
         d0, n0 = d1, n1
-    return (d0, [n0, 1]), (d1, [n1, 1])
+    return (d0, [n0, den]), (d1, [n1, den])
 
 
 def explore(ctx):
